@@ -306,11 +306,17 @@ def tier(default="quick"):
 # ----------------------------------------------------------------------------
 # evidence / known findings / violation reporting
 
+def out_base():
+    """evidence and replays of runs on /repo live in /verif; runs on a scratch copy (VERIF_REPO, self-tests on mutants)
+    keep theirs inside that copy's cache directory so that they never replace the evidence of the real tree"""
+    return VERIF if REPO == "/repo" else CACHE
+
+
 def write_evidence(pid, tier_, level, coverage, assumptions, wall, violations=0):
-    os.makedirs(os.path.join(VERIF, "evidence"), exist_ok=True)
+    os.makedirs(os.path.join(out_base(), "evidence"), exist_ok=True)
     ev = {"property_id": pid, "tier": tier_, "seed": seed(), "level": level, "coverage": coverage,
           "assumptions": assumptions, "wall_s": round(wall, 2), "violations": violations}
-    p = os.path.join(VERIF, "evidence", pid + ".json")
+    p = os.path.join(out_base(), "evidence", pid + ".json")
     with open(p + ".tmp", "w") as fh:
         json.dump(ev, fh, indent=1, default=str)
     os.replace(p + ".tmp", p)
@@ -325,7 +331,7 @@ def known_findings():
 
 
 def write_replay(pid, obj):
-    d = os.path.join(VERIF, "replays")
+    d = os.path.join(out_base(), "replays")
     os.makedirs(d, exist_ok=True)
     p = os.path.join(d, "%s-%d.json" % (pid, seed()))
     with open(p, "w") as fh:
